@@ -15,7 +15,6 @@ import (
 	"github.com/mandykoh/prism/ciexyy"
 	"github.com/mandykoh/prism/ciexyz"
 	"github.com/mandykoh/prism/linear"
-	"github.com/mandykoh/prism/matrix"
 	"github.com/mandykoh/prism/meta/icc"
 
 	"verifharness/internal/core"
@@ -31,7 +30,7 @@ import (
 //	encfirst   every encode entry point of every space is called before anything else
 //	rev        the spaces are visited in reverse order
 //	warm       every other facility of the library (both table widths of every space, colour
-//	           constructors, image transforms, XYZ, adaptation, Lab, matrices, the loaders and
+//	           constructors, image transforms, XYZ, adaptation, Lab, the loaders and
 //	           the ICC reader) has been used before the property's own workload starts: state
 //	           shared between facilities, or a table preferred "once it exists", shows here
 //
@@ -118,8 +117,6 @@ func warmEverything() {
 		_ = ad.Apply(ciexyz.Color{X: 0.3, Y: 0.4, Z: 0.5})
 	}
 	_ = ciexyz.AdaptBetweenXYYWhitePoints(ciexyy.D50, ciexyy.D65).Apply(ciexyz.D50)
-	m := matrix.Matrix3{{2, 1, 0}, {1, 3, 1}, {0, 1, 4}}
-	_ = m.Inverse().MulM(m).Transpose().MulV(matrix.Vector3{1, 2, 3})
 	_ = prism.ConvertImageToNRGBA(img, 2)
 	_ = prism.ConvertImageToRGBA(img, 2)
 	_ = prism.ConvertImageToRGBA64(img, 2)
